@@ -1096,3 +1096,79 @@ Proof.
       * lia.
       * intros l Hl. apply UVB. lia.
 Qed.
+
+(* ---------- the splice loop of skiplist_rm ---------- *)
+Lemma splice_ok : forall cnt i s u U y lo hi',
+  i + cnt <= S LEVEL_MAX -> Own s U -> sub_universe U s -> In y U -> In HEADER U -> (forall x, In x (lo ++ y :: hi') -> In x U) ->
+  NoDup (HEADER :: lo ++ y :: hi') ->
+  (forall l, i <= l -> l <= LEVEL_MAX -> Linked s l HEADER (chain s lo l ++ chain s (y :: hi') l)) ->
+  (forall l, i <= l -> l < i + cnt -> uv_get u l = Some (last (chain s lo l) HEADER)) ->
+  exists s', splice_levels s u y (seq i cnt) = Ok s' /\ same_rest s s' /\ Own s' U /\
+    (forall l x, l < i \/ i + cnt <= l -> In x U -> fwd s' x l = fwd s x l) /\
+    (forall l, i <= l -> l < i + cnt -> Linked s' l HEADER (chain s lo l ++ chain s hi' l)).
+Proof.
+  induction cnt; intros i s u U y lo hi' Hc O SU Hy Hh HU ND LK UV.
+  - simpl. exists s. split; auto. split. repeat split. split; auto. split; auto. intros. lia.
+  - cbn [seq splice_levels]. rewrite (UV i) by lia.
+    set (p := last (chain s lo i) HEADER).
+    assert (PIN : In p (HEADER :: lo)).
+    { pose proof (last_in (chain s lo i) HEADER) as Q0. fold p in Q0. destruct Q0 as [Q|Q]. left; auto.
+      right. unfold chain in Q. apply filter_In in Q. apply Q. }
+    assert (PU : In p U). { destruct PIN as [Q|Q]. rewrite <- Q. auto. apply HU. apply in_or_app. auto. }
+    assert (Li : i <= LEVEL_MAX) by (unfold LEVEL_MAX in *; lia).
+    assert (NDL : NoDup (HEADER :: chain s lo i ++ chain s (y :: hi') i)).
+    { inversion ND; subst. constructor.
+      - intro Q. apply H1. unfold chain in Q. rewrite <- filter_app in Q. apply filter_In in Q. apply Q.
+      - unfold chain. rewrite <- filter_app. apply NoDup_filter. auto. }
+    generalize (LK i (le_n i) Li). intro L0.
+    assert (L0' := L0). apply linked_split in L0'. destruct L0' as [L1 L2]. fold p in L2.
+    rewrite (linked_head _ _ _ _ L2). cbn [bind].
+    assert (CHs : forall sx, same_rest s sx -> forall X l, chain sx X l = chain s X l).
+    { intros sx [SX _] X l. unfold chain. apply filter_ext_in'. intros. unfold at_level, nlvl, dnode. rewrite SX. auto. }
+    (* one level *)
+    assert (STEP : exists sa,
+      (if match hd_error (chain s (y :: hi') i) with Some x => Nat.eqb x y | None => false end
+       then do g <- fwd s y i; set_fwd s p i g else Ok s) = Ok sa /\ same_rest s sa /\ Own sa U /\
+      (forall l x, l <> i -> In x U -> fwd sa x l = fwd s x l) /\
+      Linked sa i HEADER (chain s lo i ++ chain s hi' i)).
+    { unfold chain at 1. cbn [filter]. fold (chain s hi' i). destruct (at_level s i y) eqn:AL.
+      - cbn [hd_error]. rewrite Nat.eqb_refl.
+        assert (LY : Linked s i y (chain s hi' i)).
+        { unfold chain in L2. cbn [filter] in L2. rewrite AL in L2. fold (chain s hi' i) in L2. destruct L2. auto. }
+        rewrite (linked_head _ _ _ _ LY). cbn [bind].
+        destruct (set_fwd_own s U p i (hd_error (chain s hi' i)) O PU (SU p PU) Li) as [sa [A1 [A2 [A3 A4]]]].
+        exists sa. split; auto. split; auto. split; auto. split.
+        + intros l x Hl Hx. rewrite A4 by auto. replace (Nat.eqb i l) with false by (symmetry; apply Nat.eqb_neq; lia). rewrite andb_false_r. auto.
+        + assert (L0y : Linked s i HEADER (chain s lo i ++ y :: chain s hi' i)).
+          { unfold chain at 2 in L0. cbn [filter] in L0. rewrite AL in L0. exact L0. }
+          assert (NDy : NoDup (HEADER :: chain s lo i ++ y :: chain s hi' i)).
+          { unfold chain at 2 in NDL. cbn [filter] in NDL. rewrite AL in NDL. exact NDL. }
+          apply (linked_remove s sa i (chain s lo i) HEADER y (chain s hi' i) NDy L0y).
+          * intros x Hx Nx. fold p in Nx. rewrite A4.
+            { replace (Nat.eqb x p) with false by (symmetry; apply Nat.eqb_neq; auto). reflexivity. }
+            { destruct Hx as [Hx|Hx]. subst; auto. apply HU. apply in_app_or in Hx. apply in_or_app.
+              destruct Hx as [Hx|Hx]; [left|right; right]; unfold chain in Hx; apply filter_In in Hx; apply Hx. }
+            { apply SU. destruct Hx as [Hx|Hx]. subst; auto. apply HU. apply in_app_or in Hx. apply in_or_app.
+              destruct Hx as [Hx|Hx]; [left|right; right]; unfold chain in Hx; apply filter_In in Hx; apply Hx. }
+          * fold p. rewrite A4 by auto. rewrite !Nat.eqb_refl. simpl. rewrite (linked_head _ _ _ _ LY). reflexivity.
+      - assert (NY : match hd_error (chain s hi' i) with Some x => Nat.eqb x y | None => false end = false).
+        { destruct (chain s hi' i) eqn:CH; auto. simpl. apply Nat.eqb_neq. intro; subst n.
+          assert (In y hi'). { assert (In y (chain s hi' i)) by (rewrite CH; left; auto). unfold chain in H. apply filter_In in H. apply H. }
+          inversion ND; subst. apply NoDup_remove_2 in H3. apply H3. apply in_or_app. auto. }
+        rewrite NY. exists s. split; auto. split. repeat split. split; auto. split; auto.
+        unfold chain at 2 in L0. cbn [filter] in L0. rewrite AL in L0. exact L0. }
+    destruct STEP as [sa [S1 [S2 [S3 [S4 S5]]]]]. rewrite S1. cbn [bind].
+    assert (SUa : sub_universe U sa). { intros x Hx. destruct S2 as [S2 _]. unfold dnode. rewrite S2. apply SU; auto. }
+    destruct (IHcnt (S i) sa u U y lo hi') as [s' [E1 [E2 [E3 [E4 E5]]]]]; auto; try lia.
+    { intros l Hl1 Hl2. rewrite !(CHs sa S2). apply (linked_ext s). 2: apply LK; lia.
+      intros z Hz. apply S4. lia. destruct Hz as [Hz|Hz]. subst; auto. apply HU. apply in_app_or in Hz. apply in_or_app.
+      destruct Hz as [Hz|Hz]; [left|right]; unfold chain in Hz; apply filter_In in Hz; apply Hz. }
+    { intros l Hl1 Hl2. rewrite (CHs sa S2). apply UV; lia. }
+    exists s'. split; auto. split. { eapply same_rest_trans; eauto. } split; auto. split.
+    { intros l x Hl Hx. rewrite E4 by (auto; lia). apply S4; auto. lia. }
+    intros l Hl1 Hl2. destruct (Nat.eq_dec l i).
+    { subst l. apply (linked_ext sa). 2: exact S5. intros z Hz. apply E4. left; lia.
+      destruct Hz as [Hz|Hz]. subst; auto. apply HU. apply in_app_or in Hz. apply in_or_app.
+      destruct Hz as [Hz|Hz]; [left|right; right]; unfold chain in Hz; apply filter_In in Hz; apply Hz. }
+    { generalize (E5 l). rewrite !(CHs sa S2). intro Q. apply Q; lia. }
+Qed.
